@@ -30,7 +30,7 @@ ASSUMPTIONS = [
 ]
 TOLERANCES = {"dA": 1e-12, "df": 1e-12}
 EXHAUSTIVE = False
-REQUIRED_MONITORS = ["null_regime_zero_rates", "texture_unchanged[L=0]", "texture_unchanged[null_regime]",
+REQUIRED_MONITORS = ["null_regime_zero_rates", "texture_unchanged[L=0]", "texture_unchanged[null_regime]", "texture_unchanged[after_switch_to_null]",
                      "fractions_unchanged[M=0]", "rejected_with_ValueError", "history_untouched_after_failure"]
 
 UNSUPPORTED = (2, 3, 5)
@@ -51,7 +51,7 @@ def gen_cases(ctx):
                "scale": float(10.0 ** rng.uniform(-16, 3))}
     for i in range(ctx.share(ctx.scale(150, 5000))):
         rng = ctx.rng(2, i)
-        sub = ["L0", "null_regime", "M0"][i % 3]
+        sub = ["L0", "null_regime", "M0", "switch_to_null"][i % 4]
         c = drive.random_history_case(rng)
         c["kind"] = "null_history"
         c["sub"] = sub
@@ -63,6 +63,11 @@ def gen_cases(ctx):
             c["regime"] = int(rng.choice([4, 6, 0, 7, 1]))
         elif sub == "null_regime":
             c["regime"] = int(rng.choice([0, 7]))
+        elif sub == "switch_to_null":
+            c["regime"] = int(rng.choice([4, 6]))
+            c["regime2"] = int(rng.choice([0, 7]))
+            c["N"] = int(rng.choice([2, 4, 10]))
+            c["equal"] = True
         else:
             c["regime"] = int(rng.choice([4, 6]))
             c["params"]["gbm_mobility"] = 0.0
@@ -123,7 +128,7 @@ def _null_history(ctx, pydrex, case):
     H = drive.History(pydrex, case)
     sub = case["sub"]
     chi = H.params["gbs_threshold"]
-    if H.f0.min() < chi / H.n:
+    if H.f0.min() < chi / H.n or sub == "switch_to_null":
         H.params["gbs_threshold"] = 0.0
     m = H.mineral()
     A0 = [a.copy() for a in m.orientations]
@@ -147,7 +152,17 @@ def _null_history(ctx, pydrex, case):
         ctx.check("texture_unchanged[L=0]", dA <= 1e-12 and df <= 1e-12, case, dA=dA, df=df, regime=case["regime"])
         ctx.check("F_unchanged[L=0]", float(np.abs(F - H.F0).max()) <= 1e-12 * max(1, np.abs(H.F0).max()), case)
     elif sub == "null_regime":
-        ctx.check("texture_unchanged[null_regime]", dA <= 1e-12 and df <= 1e-12, case, dA=dA, df=df, regime=case["regime"])
+        ctx.check("texture_unchanged[null_regime]", dA <= 1e-12 and df <= 1e-12, case, dA=dA, df=df, regime=case["regime"],
+                  via=H.regime_via)
+        ctx.cls(f"null_regime_via={H.regime_via}")
+    elif sub == "switch_to_null":
+        # after the switch (just before the middle partition point) nothing may change any more
+        k0 = H.N // 2
+        dA2 = max(float(np.abs(a - m.orientations[k0]).max()) for a in m.orientations[k0:])
+        df2 = max(float(np.abs(x - m.fractions[k0]).max()) for x in m.fractions[k0:])
+        moved = float(np.abs(m.orientations[k0] - m.orientations[0]).max())
+        ctx.check("texture_unchanged[after_switch_to_null]", dA2 <= 1e-12 and df2 <= 1e-12, case, dA=dA2, df=df2,
+                  regime2=case["regime2"], moved_before_switch=moved)
     else:
         ctx.check("fractions_unchanged[M=0]", df <= 1e-12, case, df=df)
         ctx.count("M0_histories_with_rotating_texture", int(dA > 1e-6))
